@@ -409,6 +409,11 @@ func (s *QueryVisitor) EnterOC_RegularQuery(ctx *parser.OC_RegularQueryContext) 
 }
 
 func (s *QueryVisitor) EnterOC_SingleQuery(ctx *parser.OC_SingleQueryContext) {
+	// A single query outside a regular query (oC_BulkImportQuery, already reported as unsupported) must not panic
+	if s.Query == nil {
+		s.Query = cypher.NewRegularQuery()
+	}
+
 	s.Query.SingleQuery = cypher.NewSingleQuery()
 }
 
